@@ -132,7 +132,9 @@ func init() {
 		a := &acc{}
 		partE1(c, a, e1Batch{Profiles: []string{"ids", "registry"}, Histories: c.Pick(160, 1600), Steps: c.Pick(110, 180), MaxConns: 6, MaxSess: 3},
 			"a release was followed by further allocations in the same id space (a session id reused, or an entity deleted before later entity adds)",
-			func(s *e1.Stats) bool { return s.SIDsReused >= 1 || (s.Accepted["entity_del"] >= 1 && s.Accepted["entity_add"] >= 2) })
+			func(s *e1.Stats) bool {
+				return s.SIDsReused >= 1 || (s.Accepted["entity_del"] >= 1 && s.Accepted["entity_add"] >= 2)
+			})
 		partIDGenerator(c, a)
 		partAllocStorms(c, a)
 		return a.finish(c)
